@@ -69,6 +69,8 @@ Next == /\ tl <= Len(Rec)
         /\ UNCHANGED cvars
         /\ LET e == Rec[tl] IN
            IF e.ev = "Reset" THEN TRUE
+           ELSE IF e.ev = "Hang" THEN PrintT(<<"BAD", tl, "hang">>)        \* a codec call did not return (watchdog)
+           ELSE IF e.ev = "Abort" THEN PrintT(<<"BAD", tl, "abort">>)      \* the process running the case died
            ELSE IF e.ev # "RT" THEN PrintT(<<"BAD", tl, "unknown-event">>)
            ELSE LET v == Verdict(e) IN
                 /\ (IF v = "ok" THEN TRUE ELSE PrintT(<<"BAD", tl, v>>))
